@@ -39,6 +39,7 @@ type exchange struct {
 
 // sentBody remembers the exact bytes sent for a body token.
 type sentResp struct {
+	trailer bool // sent chunked with the trailer field X-Trail
 	body   []byte
 	e2e    http.Header // end-to-end headers as parsed by net/http
 	status int
@@ -387,11 +388,23 @@ func (w *World) buildResponse(req *http.Request, a *Ans, now time.Time) (*http.R
 		w.mu.Lock()
 		w.nhop++
 		hp := "~hp" + strconv.Itoa(w.nhop) + "~"
+		nth := w.nhop
 		w.mu.Unlock()
 		if a.Fr != 2 && a.Fr != 3 {
 			// net/http drops every Connection line of a response that says "close"
 			// (close-delimited framings), so a field named there is unknowable then
-			add("Connection", "X-Hop-A, keep-alive")
+			// the Connection list on one field line or on several (RFC 9110 5.3: together they are one list)
+			switch nth % 3 {
+			case 0:
+				add("Connection", "X-Hop-A, keep-alive")
+			case 1:
+				add("Connection", "keep-alive")
+				add("Connection", "X-Hop-A")
+			default:
+				add("Connection", "x-hop-b")
+				add("Connection", "keep-alive, x-hop-a")
+				add("X-Hop-B", hp)
+			}
 			add("X-Hop-A", hp)
 		}
 		add("Keep-Alive", "timeout=5, x="+hp)
@@ -474,13 +487,13 @@ func (w *World) buildResponse(req *http.Request, a *Ans, now time.Time) (*http.R
 	if a.NoDate == 1 {
 		e2e.Del("Date") // none, or one nobody can parse: the cache supplies its own
 	}
-	for _, h := range []string{"Connection", "X-Hop-A", "Keep-Alive", "Proxy-Authenticate",
+	for _, h := range []string{"Connection", "X-Hop-A", "X-Hop-B", "Keep-Alive", "Proxy-Authenticate",
 		"Proxy-Authentication-Info", "Upgrade", "Te", "Proxy-Connection", "Transfer-Encoding", "Trailer"} {
 		e2e.Del(h)
 	}
 	w.mu.Lock()
 	if tok != "" {
-		w.sent[tok] = &sentResp{body: body, e2e: e2e, status: st}
+		w.sent[tok] = &sentResp{body: body, e2e: e2e, status: st, trailer: a.Fr == 5 && bodyAllowed}
 		w.effHdr[tok] = e2e.Clone()
 	}
 	w.tagHdr[tag] = e2e
